@@ -211,3 +211,24 @@ package fasthttp
 //@   ensures[closed-unless-kept] closed == (s.KeepHijackedConns ? 0 : 1)
 //@   ensures[reader-kept-with-conn] s.KeepHijackedConns ==> readerReleased == 0
 //@   ensures[ctx-released-once] ctxReleased == 1
+
+// The connection handed to the hijack handler reads through the reader of the request loop (so bytes already buffered
+// behind the request are the first ones it sees) and writes to the connection of that request; a pooled wrapper is
+// re-pointed at both, and a released one keeps neither.
+//@ func Server.acquireHijackConn results hjc
+//@   property C17
+//@   mode skeleton
+//@   modifies s.hijackConnPool
+//@   frame assumed
+//@   ensures[reads-through-the-request-reader] hjc != nil && hjc.r == r
+//@   ensures[wraps-the-request-connection] hjc.Conn == c
+
+//@ func Server.releaseHijackConn
+//@   property C17
+//@   mode skeleton
+//@   modifies s.hijackConnPool, hjc.Conn, hjc.r
+//@   frame assumed
+//@   on call sync.Pool.Put:
+//@     nohavoc
+//@   end
+//@   ensures[keeps-nothing] hjc.r == nil && hjc.Conn == nil
